@@ -83,6 +83,13 @@ APIS = {
     "from_mut_slice": ("let mut src: Vec<String> = vec![String::new(); 3];", "GenericArray::<String, U3>::from_mut_slice(&mut src)", "src.push(String::new());"),
     "chunks_from_slice": ("let mut src: Vec<String> = vec![String::new(); 7];", "GenericArray::<String, U3>::chunks_from_slice(&src).0", "src.push(String::new());"),
     "chunks_from_slice_mut": ("let mut src: Vec<String> = vec![String::new(); 7];", "GenericArray::<String, U3>::chunks_from_slice_mut(&mut src).1", "src.push(String::new());"),
+    "slice_from_chunks_mut": ("let mut src: Vec<GenericArray<String, U3>> = vec![GenericArray::default(); 2];", "GenericArray::<String, U3>::slice_from_chunks_mut(&mut src)", "src.push(GenericArray::default());"),
+    "from_chunks_mut": ("let mut src: Vec<[String; 3]> = vec![[String::new(), String::new(), String::new()]; 2];", "GenericArray::<String, U3>::from_chunks_mut(&mut src)", "src.clear();"),
+    "into_chunks_mut": ("let mut src: Vec<GenericArray<String, U3>> = vec![GenericArray::default(); 2];", "GenericArray::<String, U3>::into_chunks_mut::<3>(&mut src)", "src.push(GenericArray::default());"),
+    "try_from_mut_slice": ("let mut src: Vec<String> = vec![String::new(); 3];", "GenericArray::<String, U3>::try_from_mut_slice(&mut src).unwrap()", "src.push(String::new());"),
+    "from_array_mut": ("let mut src: [String; 3] = [String::new(), String::new(), String::new()];", "<&mut GenericArray<String, U3>>::from(&mut src)", "src[0] = String::new();"),
+    "unflatten_mut": ("let mut src: GenericArray<String, U6> = GenericArray::default();", "Unflatten::<String, U6, U3>::unflatten(&mut src)", "src[0] = String::new();"),
+    "asmut_array": ("let mut src: GenericArray<String, U3> = %s;" % S3, "AsMut::<[String; 3]>::as_mut(&mut src)", "src[0] = String::new();"),
     "slice_from_chunks": ("let mut src: Vec<GenericArray<String, U3>> = vec![GenericArray::default(); 2];", "GenericArray::<String, U3>::slice_from_chunks(&src)", "src.push(GenericArray::default());"),
     "into_chunks": ("let mut src: Vec<GenericArray<String, U3>> = vec![GenericArray::default(); 2];", "GenericArray::<String, U3>::into_chunks::<3>(&src)", "src.push(GenericArray::default());"),
     "from_array_ref": ("let mut src: [String; 3] = [String::new(), String::new(), String::new()];", "<&GenericArray<String, U3>>::from(&src)", "src[0] = String::new();"),
@@ -110,6 +117,13 @@ def borrow_program(d):
             body = "%s let r = %s; touch(r); %s" % (decl, expr, mutate)
         else:
             body = "%s let r = %s; %s touch(r);" % (decl, expr, mutate)
+    elif mis == "from_shared":
+        # the mutable view must require a mutable borrow of its source: the same call on `&src` is a type error
+        if twin:
+            body = "%s let r = %s; touch(r);" % (decl, expr)
+        else:
+            shared = expr.replace("&mut src", "&src").replace("src.as_mut_slice()", "(&src).as_mut_slice()").replace("src.iter_mut()", "(&src).iter_mut()")
+            body = "%s let src = src; let r = %s; touch(r);" % (decl, shared)
     else:  # second_mut
         if twin:
             body = "%s let r1 = %s; touch(r1); let r2 = %s; touch(r2);" % (decl, expr, expr)
